@@ -20,7 +20,7 @@ def main():
     bad = 0
     for d in dirs:
         meta = json.load(open(os.path.join(d, 'meta.json')))
-        target = meta['breaks_property'] if meta.get('detected_by_target_check') else (meta.get('detected_by') or [meta['breaks_property']])[0]
+        target = meta['breaks_property'] if meta.get('detected_by_target_check', True) else (meta.get('detected_by') or [meta['breaks_property']])[0]
         wt = tempfile.mkdtemp(prefix='selftest_', dir='/tmp')
         os.rmdir(wt)
         try:
@@ -32,6 +32,15 @@ def main():
             r = subprocess.run([os.path.join(ROOT, 'check'), target, '--tier', 'quick'], capture_output=True, text=True, env=env, cwd=ROOT)
             ok = r.returncode == 1
             first = next((l for l in r.stdout.splitlines() if l.startswith('VIOLATION')), '')[:160]
+            if '--write' in sys.argv:
+                import re
+                keys = sorted(set(re.findall(r'VIOLATION property=(C\d+) .*? key=(\S+)', r.stdout)))
+                if target == meta['breaks_property']:
+                    meta['detected_by_target_check'] = bool(ok)
+                if ok:
+                    meta['detected_by'] = sorted(set((meta.get('detected_by') or []) + [target]))
+                    meta['first_violation_keys'] = [f'{p}:{k}' for p, k in keys][:3]
+                json.dump(meta, open(os.path.join(d, 'meta.json'), 'w'), indent=1)
             print(f'{os.path.basename(d)}: {"DETECTED" if ok else "MISSED"} by {target} (exit {r.returncode}) {first}', flush=True)
             bad += not ok
         finally:
